@@ -1,12 +1,12 @@
 package props
 
 import (
-	"regexp"
 	"bytes"
 	stdjson "encoding/json"
 	"fmt"
 	"io"
 	"reflect"
+	"regexp"
 
 	json "github.com/goccy/go-json"
 
